@@ -199,7 +199,7 @@ func genStruct(t *rapid.T, depth int, label string) TypeDesc {
 		case 6:
 			f.Tag = fmt.Sprintf(`json:%q`, ",omitempty,string")
 		case 7:
-			f.Tag = rapid.SampledFrom([]string{`json:"-,"`, `json:",omitempty"`, `json:"a,omitempty,string"`, `json:"a,unknownopt"`, `xml:"a"`, `json:"a" xml:"b"`}).Draw(t, l+"odd")
+			f.Tag = rapid.SampledFrom([]string{`json:"-,"`, `json:",omitempty"`, `json:"a,omitempty,string"`, `json:"a,unknownopt"`, `json:"a, omitempty"`, `json:"a,omitempty "`, `json:"a, string"`, `json:" a"`, `json:"a ,omitempty"`, `json:"a,OMITEMPTY"`, `json:"a,omitempty,omitempty"`, `json:"a,,string"`, `xml:"a"`, `json:"a" xml:"b"`}).Draw(t, l+"odd")
 		}
 		d.Fields = append(d.Fields, f)
 	}
@@ -294,7 +294,7 @@ func genInput(t *rapid.T, d TypeDesc, depth int, l string) *ref.V {
 			var k string
 			switch d.Key {
 			case "int":
-				k = rapid.SampledFrom([]string{"0", "1", "-5", "x", "1.5", "9223372036854775808", " 1", "+1", "01"}).Draw(t, l+"ik")
+				k = rapid.SampledFrom([]string{"0", "1", "-5", "x", "1.5", "9223372036854775808", " 1", "+1", "01", "10", "2", "-10", "200"}).Draw(t, l+"ik")
 			case "uint8":
 				k = rapid.SampledFrom([]string{"0", "255", "256", "-1", "7", "a"}).Draw(t, l+"uk")
 			case "textm":
